@@ -1,5 +1,6 @@
 import Inkayaku.Model.Board
 import Inkayaku.Gen.Rs.Check
+import Inkayaku.Props.Translated.Magic
 import Inkayaku.Props.Translated.Basic
 /-! Part of `Props/Translated`: see `Props/Translated/Basic.lean` for the overview.  One file per translated Rust source, so that a
 change of one Rust function re-opens exactly the obligations (and the properties) that depend on it.
@@ -30,6 +31,18 @@ def knightF (sq : Int) : UInt64 := leaperAttacks knightTable sq.toNat
 def whitePawnF (sq : Int) : UInt64 := leaperAttacks whitePawnTable sq.toNat
 def blackPawnF (sq : Int) : UInt64 := leaperAttacks blackPawnTable sq.toNat
 def kingF (sq : Int) : UInt64 := leaperAttacks kingTable sq.toNat
+
+/-- what the opaque parameter `ROOK_MAGICS_get_attacks` stands for: on a square `< 64` the translated
+`Magics::get_attacks` on the rook configurations is defined and is `rookF` (for a square `≥ 64` — a side without king,
+`trailing_zeros` = 64 — the Rust indexes `get_unchecked` out of bounds, `rs_rook_magics_ub`; the model excludes that
+by well-formedness) -/
+theorem rookF_is_translated_lookup (sq : Nat) (hsq : sq < 64) (occ : UInt64) :
+    Rs.Magics.get_attacks rookMagics (sq : Int) occ = some (rookF (sq : Int) occ) := by
+  rw [rs_rook_magics_eq sq hsq occ]; simp only [rookF, Int.toNat_natCast]
+
+theorem bishopF_is_translated_lookup (sq : Nat) (hsq : sq < 64) (occ : UInt64) :
+    Rs.Magics.get_attacks bishopMagics (sq : Int) occ = some (bishopF (sq : Int) occ) := by
+  rw [rs_bishop_magics_eq sq hsq occ]; simp only [bishopF, Int.toNat_natCast]
 
 /-! #### `PlayerState` accessors (array indexing never out of bounds: the piece constants are 1..6) -/
 
